@@ -199,6 +199,8 @@ pub struct Cfg {
     /// Budget of "special" letters (non-default constraints, failure / late /
     /// far-ahead preconfirmations, expiry) along one history.
     pub max_dev: u32,
+    /// Depth bound of this exploration.
+    pub depth: usize,
     /// Blocks with several transactions are in the alphabet. `process_block`
     /// walks a `HashSet` of the confirmed ids, so the recency order inside the
     /// spent-input cache after such a block depends on the process-random hash
